@@ -101,16 +101,24 @@ def main():
             print(sid, meta.get("property"), {k: (v.get("exit") if isinstance(v, dict) else v) for k, v in res.items()}, flush=True)
     out = os.path.join(VERIF, "seeded", "INDEX.fixes.md" if "--fixes" in a else "INDEX.md")
     os.makedirs(os.path.dirname(out), exist_ok=True)
+    lines = {}
+    if "--only" in a and os.path.exists(out):           # one change re-run: its row replaces the old one, the others stay
+        for l in open(out):
+            c = l.split("|")
+            if len(c) > 2 and c[1].strip()[:2] in ("M-", "E-"):
+                lines[c[1].strip()] = l.rstrip("\n")
+    for sid, what, prop, res in rows:
+        if "apply_failed" in res:
+            lines[sid] = "| %s | %s | %s | patch does not apply: %s | | |" % (sid, what, prop, res["apply_failed"][:80].replace("\n", " "))
+            continue
+        c1 = ", ".join("%s (%d)" % (p, v["violations"]) for p, v in res.items() if v["exit"] == 1)
+        c2 = ", ".join(p for p, v in res.items() if v["exit"] == 2)
+        c0 = ", ".join(p for p, v in res.items() if v["exit"] == 0)
+        lines[sid] = "| %s | %s | %s | %s | %s | %s |" % (sid, what.replace("|", "/"), prop, c1, c2, c0)
     with open(out, "w") as f:
         f.write("| change | what | property | checks that report it (exit 1) | analysis-broken (exit 2) | silent (exit 0) |\n|---|---|---|---|---|---|\n")
-        for sid, what, prop, res in rows:
-            if "apply_failed" in res:
-                f.write("| %s | %s | %s | patch does not apply: %s | | |\n" % (sid, what, prop, res["apply_failed"][:80].replace("\n", " ")))
-                continue
-            c1 = ", ".join("%s (%d)" % (p, v["violations"]) for p, v in res.items() if v["exit"] == 1)
-            c2 = ", ".join(p for p, v in res.items() if v["exit"] == 2)
-            c0 = ", ".join(p for p, v in res.items() if v["exit"] == 0)
-            f.write("| %s | %s | %s | %s | %s | %s |\n" % (sid, what.replace("|", "/"), prop, c1, c2, c0))
+        for sid in (sorted(lines) if "--fixes" not in a else lines):
+            f.write(lines[sid] + "\n")
     print("wrote", out)
 
 
